@@ -990,3 +990,234 @@ Proof. vm_compute. split; reflexivity. Qed.
 
 Theorem inject_iff_asked_product : forallb shape_inject_ok shape_attempts = true.
 Proof. vm_compute. reflexivity. Qed.
+
+(* ================================================================== the two-phase API *)
+(* creating a decorator and defining a function never touch the registry and are never refused;
+   an application is exactly one `step` *)
+Lemma wstep_cases : forall w x w' res, wstep w x = (w', res) ->
+    (w_reg w' = w_reg w /\ (res = Ok \/ (res = Error EKey /\ w' = w)) /\
+     match x with WApply _ _ => res = Error EKey | _ => res = Ok end) \/
+    (exists i j d f f', x = WApply i j /\ nth_error (w_decs w) i = Some d /\ nth_error (w_fns w) j = Some f /\
+                        step (w_reg w) (op_of d f) = (w_reg w', f', res) /\
+                        w_decs w' = w_decs w /\ w_fns w' = set_nth j f' (w_fns w)).
+Proof.
+  intros w x w' res H. destruct x as [f|d|i j]; cbn [wstep make_decorator] in H.
+  - inversion H; subst. left. cbn [w_reg]. auto.
+  - inversion H; subst. left. cbn [w_reg]. auto.
+  - destruct (nth_error (w_decs w) i) as [d|] eqn:Ed.
+    + destruct (nth_error (w_fns w) j) as [f|] eqn:Ef.
+      * destruct (step (w_reg w) (op_of d f)) as [[r f'] res'] eqn:S. inversion H; subst.
+        right. exists i, j, d, f, f'. cbn [w_reg w_decs w_fns]. auto 10.
+      * inversion H; subst. left. auto.
+    + inversion H; subst. left. auto.
+Qed.
+
+Theorem creation_changes_nothing : forall w d,
+    w_reg (fst (wstep w (WMake d))) = w_reg w /\ snd (wstep w (WMake d)) = Ok.
+Proof. intros w d. cbn. auto. Qed.
+
+Theorem world_reject_is_identity : forall w x w' e,
+    wstep w x = (w', Error e) -> w_reg w' = w_reg w /\ w_fns w' = w_fns w /\ w_decs w' = w_decs w.
+Proof.
+  intros w x w' e H. destruct (wstep_cases _ _ _ _ H) as [(Hr & [Hk|[_ ->]] & _)|(i & j & d & f & f' & -> & Hd & Hf & S & Hds & Hfs)];
+    try discriminate; auto.
+  pose proof (reject_is_identity _ _ _ _ _ S) as R. pose proof (reject_keeps_function _ _ _ _ _ S) as F.
+  split; [exact R|]. split; [|exact Hds]. rewrite Hfs, F.
+  assert (op_fn (op_of d f) = f) by (destruct d; reflexivity). rewrite H0.
+  clear -Hf. revert j Hf. induction (w_fns w) as [|a t IH]; intros [|j] Hf; cbn in *; try discriminate.
+  - inversion Hf; reflexivity.
+  - f_equal. apply IH. exact Hf.
+Qed.
+
+Lemma wstep_wf : forall w x w' res, wf (w_reg w) -> wstep w x = (w', res) -> wf (w_reg w').
+Proof.
+  intros w x w' res W H. destruct (wstep_cases _ _ _ _ H) as [(Hr & _)|(i & j & d & f & f' & _ & _ & _ & S & _)].
+  - rewrite Hr. exact W.
+  - pose proof (wf_step (w_reg w) (op_of d f) W) as W'. unfold step_reg in W'. rewrite S in W'. exact W'.
+Qed.
+
+Lemma wrun_wf : forall xs w, wf (w_reg w) -> Forall (fun p => wf (w_reg (fst p))) (wrun w xs).
+Proof.
+  induction xs as [|x t IH]; intros w W; cbn [wrun]; [constructor|].
+  destruct (wstep w x) as [w' res] eqn:S. pose proof (wstep_wf _ _ _ _ W S) as W'.
+  constructor; [exact W'|apply IH, W'].
+Qed.
+
+(* every interleaving of definitions, creations and applications: each name keeps at most one
+   handler *)
+Theorem world_at_most_one_handler : forall xs,
+    Forall (fun p => let r := w_reg (fst p) in
+                     NoDup (akeys (features r)) /\ NoDup (akeys (commands r)) /\
+                     forall n e1 e2,
+                       (In (n, e1) (features r) -> In (n, e2) (features r) -> e1 = e2) /\
+                       (In (n, e1) (commands r) -> In (n, e2) (commands r) -> e1 = e2))
+           (wrun empty_world xs).
+Proof.
+  intro xs. pose proof (wrun_wf xs empty_world wf_empty) as H.
+  induction H as [|p t Hp Ht IH]; constructor; [|exact IH].
+  destruct Hp as (W1 & W2 & _). cbn zeta. split; [exact W1|]. split; [exact W2|].
+  intros n e1 e2. split; intros H1 H2.
+  - apply (in_nodup_aget _ _ _ W1) in H1. apply (in_nodup_aget _ _ _ W1) in H2. congruence.
+  - apply (in_nodup_aget _ _ _ W2) in H1. apply (in_nodup_aget _ _ _ W2) in H2. congruence.
+Qed.
+
+Fixpoint wtriples (w : world) (tr : list (world * result)) : list (world * world * result) :=
+  match tr with
+  | [] => []
+  | (w', res) :: t => (w, w', res) :: wtriples w' t
+  end.
+
+(* every interleaving: a refused call (necessarily an application) leaves the registry - hence
+   every function of it - and the function objects as they were; a creation changes nothing *)
+Theorem world_history_atomic : forall (A : Type) (obs : registry -> A) xs w,
+    Forall (fun t => let '(before, after, res) := t in
+                     is_error res = true ->
+                     w_reg after = w_reg before /\ w_fns after = w_fns before /\
+                     obs (w_reg after) = obs (w_reg before))
+           (wtriples w (wrun w xs)).
+Proof.
+  intros A obs xs. induction xs as [|x t IH]; intro w; cbn [wrun wtriples]; [constructor|].
+  destruct (wstep w x) as [w' res] eqn:S. cbn [wtriples]. constructor; [|apply IH].
+  intro He. destruct res as [|e]; [discriminate|].
+  destruct (world_reject_is_identity _ _ _ _ S) as (H1 & H2 & _). rewrite H1. auto.
+Qed.
+
+Theorem world_creation_silent : forall xs w,
+    Forall (fun p => let '(before, after, res, x) := p in
+                     match x with
+                     | WApply _ _ => True
+                     | _ => res = Ok /\ w_reg after = w_reg before
+                     end)
+           (combine (wtriples w (wrun w xs)) xs).
+Proof.
+  induction xs as [|x t IH]; intro w; cbn [wrun wtriples combine]; [constructor|].
+  destruct (wstep w x) as [w' res] eqn:S. cbn [wtriples combine]. constructor; [|apply IH].
+  destruct x as [f|d|i j]; [| |exact I]; cbn in S; inversion S; subst; cbn; auto.
+Qed.
+
+Lemma mstep_frame : forall ws k x k', k' <> k ->
+    nth_error (fst (mstep ws k x)) k' = nth_error ws k'.
+Proof.
+  intros ws k x k' Hne. unfold mstep. destruct (nth_error ws k) as [w|] eqn:E; [|reflexivity].
+  destruct (wstep w x) as [w' res]. cbn [fst].
+  clear E. revert k k' Hne. induction ws as [|a t IH]; intros [|k] [|k'] Hne; cbn; try reflexivity.
+  - contradiction.
+  - apply IH. congruence.
+Qed.
+
+(* ------------------------------------------------------------------ refinement, two-phase *)
+Lemma sfind_map : forall (g : name * entry -> sreg) n e l,
+    (forall p, g_name (g p) = fst p) -> aget n l = Some e ->
+    exists k, sfind n (map g l) = Some (g (k, e)) /\ k = n.
+Proof.
+  intros g n e l Hg. induction l as [|[k e'] t IH]; cbn [aget map]; intro H; [discriminate|].
+  unfold sfind. cbn [find]. rewrite Hg. cbn [fst].
+  destruct (name_eqb n k) eqn:E.
+  - inversion H; subst. apply name_eqb_eq in E. subst. exists k. auto.
+  - apply IH in H. exact H.
+Qed.
+
+Lemma step_fn_spec : forall r x r' f' res, step r x = (r', f', res) ->
+    f' = if is_error res then op_fn x else spec_fn_w (abs r) x.
+Proof.
+  intros r x r' f' res S. destruct res as [|e]; cbn [is_error]; [|eapply reject_keeps_function; exact S].
+  destruct x as [n o f|n f|f]; cbn [step spec_fn_w spec_fn] in *.
+  - apply feature_ok_exact in S. tauto.
+  - apply command_ok_exact in S. tauto.
+  - unfold thread in S. destruct (f_async f); [discriminate|].
+    destruct (f_reg f) as [[[|] n]|].
+    + destruct (aget n (features r)) as [e|] eqn:E; [|discriminate]. inversion S; subst.
+      unfold abs. cbn [s_features].
+      destruct (sfind_map (abs_feature r) n e (features r)) as (k & Hk & ->); [intros [? ?]; reflexivity|exact E|].
+      rewrite Hk. reflexivity.
+    + destruct (aget n (commands r)) as [e|] eqn:E; [|discriminate]. inversion S; subst.
+      unfold abs. cbn [s_commands].
+      destruct (sfind_map abs_command n e (commands r)) as (k & Hk & ->); [intros [? ?]; reflexivity|exact E|].
+      rewrite Hk. reflexivity.
+    + inversion S; subst. reflexivity.
+Qed.
+
+Lemma step_func_ok : forall r x r' f' res,
+    func_ok (op_fn x) = true -> step r x = (r', f', res) -> func_ok f' = true.
+Proof.
+  intros r x r' f' res H S. destruct res as [|e].
+  - destruct x as [n o f|n f|f]; cbn [step op_fn] in *.
+    + apply feature_ok_exact in S. destruct S as (_ & _ & _ & -> & _). exact H.
+    + apply command_ok_exact in S. destruct S as (_ & _ & -> & _). exact H.
+    + unfold thread in S. destruct (f_async f) eqn:A; [discriminate|].
+      assert (Hm : func_ok (assign_thread_attr_f f) = true).
+      { unfold func_ok. cbn [assign_thread_attr_f f_async f_thread]. rewrite A. reflexivity. }
+      destruct (f_reg f) as [[[|] n]|].
+      * destruct (aget n (features r)) as [e|]; [|discriminate]. inversion S; subst. destruct (e_inject e); assumption.
+      * destruct (aget n (commands r)) as [e|]; [|discriminate]. inversion S; subst. destruct (e_inject e); assumption.
+      * inversion S; subst. exact Hm.
+  - rewrite (reject_keeps_function _ _ _ _ _ S). exact H.
+Qed.
+
+Definition world_ok (w : world) : Prop :=
+  wf (w_reg w) /\ Forall (fun f => func_ok f = true) (w_fns w) /\ Forall (fun d => dec_ok d = true) (w_decs w).
+
+Lemma Forall_set_nth : forall {A} (P : A -> Prop) j x l, Forall P l -> P x -> Forall P (set_nth j x l).
+Proof.
+  intros A P j x l H Hx. revert j. induction H as [|a t Ha Ht IH]; intros [|j]; cbn [set_nth]; constructor; auto.
+Qed.
+
+Lemma Forall_snoc : forall {A} (P : A -> Prop) x l, Forall P l -> P x -> Forall P (l ++ [x]).
+Proof. intros A P x l H Hx. apply Forall_app. split; [exact H|constructor; [exact Hx|constructor]]. Qed.
+
+Lemma nth_error_Forall : forall {A} (P : A -> Prop) l i x, Forall P l -> nth_error l i = Some x -> P x.
+Proof. intros A P l i x H E. rewrite Forall_forall in H. apply H. eapply nth_error_In. exact E. Qed.
+
+Lemma op_of_ok : forall d f, dec_ok d = true -> func_ok f = true -> op_ok (op_of d f) = true.
+Proof. intros [n o| n|] f Hd Hf; cbn [op_of op_ok dec_ok] in *; rewrite ?Hd, ?Hf; reflexivity. Qed.
+
+Lemma op_fn_op_of : forall d f, op_fn (op_of d f) = f.
+Proof. intros [| |] f; reflexivity. Qed.
+
+Theorem wstep_refines : forall w x w' res,
+    world_ok w -> wop_ok x = true -> wstep w x = (w', res) ->
+    world_ok w' /\ spec_wstep (abs_world w) x = (abs_world w', is_error res).
+Proof.
+  intros w x w' res (W & Hf & Hd) Hx S. destruct x as [f|d|i j]; cbn [wstep make_decorator] in S.
+  - inversion S; subst. split; [|reflexivity]. unfold world_ok. cbn [w_reg w_fns w_decs].
+    split; [exact W|]. split; [apply Forall_snoc; assumption|exact Hd].
+  - inversion S; subst. split; [|reflexivity]. unfold world_ok. cbn [w_reg w_fns w_decs].
+    split; [exact W|]. split; [exact Hf|apply Forall_snoc; assumption].
+  - cbn [spec_wstep abs_world sw_decs sw_fns sw_state].
+    destruct (nth_error (w_decs w) i) as [d|] eqn:Ed; [|inversion S; subst; split; [split; auto|reflexivity]].
+    destruct (nth_error (w_fns w) j) as [f|] eqn:Ef; [|inversion S; subst; split; [split; auto|reflexivity]].
+    destruct (step (w_reg w) (op_of d f)) as [[r f'] res'] eqn:St. inversion S; subst. clear S.
+    pose proof (nth_error_Forall _ _ _ _ Hd Ed) as Hdo. pose proof (nth_error_Forall _ _ _ _ Hf Ef) as Hfo.
+    pose proof (op_of_ok d f Hdo Hfo) as Hop.
+    destruct (step_refines (w_reg w) (op_of d f) W Hop) as [R1 R2].
+    unfold step_reg, step_res in R1, R2. rewrite St in R1, R2. cbn [fst snd] in R1, R2.
+    pose proof (step_fn_spec _ _ _ _ _ St) as Hf'.
+    assert (Hfok : func_ok f' = true).
+    { eapply step_func_ok; [|exact St]. rewrite op_fn_op_of. exact Hfo. }
+    split.
+    + unfold world_ok. cbn [w_reg w_fns w_decs]. split.
+      * pose proof (wf_step (w_reg w) (op_of d f) W) as W'. unfold step_reg in W'. rewrite St in W'. exact W'.
+      * split; [apply Forall_set_nth; assumption|exact Hd].
+    + destruct (spec_step (abs (w_reg w)) (op_of d f)) as [s' b] eqn:Sp. cbn [fst snd] in R1, R2. subst s' b.
+      unfold abs_world. cbn [w_reg w_decs w_fns]. f_equal. f_equal.
+      rewrite Hf'. destruct (is_error res); [|reflexivity].
+      rewrite op_fn_op_of. clear -Ef. revert j Ef. induction (w_fns w) as [|a t IH]; intros [|j] Ef; cbn in *; try discriminate.
+      * inversion Ef; reflexivity.
+      * f_equal. apply IH. exact Ef.
+Qed.
+
+Definition wview (p : world * result) : sworld * bool := (abs_world (fst p), is_error (snd p)).
+
+(* the executable reference for interleavings is the abstraction of the model, call by call *)
+Theorem wrun_refines : forall xs w, world_ok w -> forallb wop_ok xs = true ->
+    map wview (wrun w xs) = spec_wrun (abs_world w) xs.
+Proof.
+  induction xs as [|x t IH]; intros w W H; cbn [wrun spec_wrun map]; [reflexivity|].
+  cbn [forallb] in H. apply andb_true_iff in H. destruct H as [Hx Ht].
+  destruct (wstep w x) as [w' res] eqn:S.
+  destruct (wstep_refines _ _ _ _ W Hx S) as [W' R]. rewrite R. cbn [map]. unfold wview at 1. cbn [fst snd].
+  f_equal. apply IH; assumption.
+Qed.
+
+Lemma world_ok_empty : world_ok empty_world.
+Proof. unfold world_ok, empty_world. cbn. split; [exact wf_empty|split; constructor]. Qed.
